@@ -865,7 +865,7 @@ class NonMementoFunctionHashRule(HashRule):
         # noinspection PyUnresolvedReferences
         super().__init__(
             key="Function;{};{}".format(
-                parent_symbol, obj.__module__ + ":" + obj.__qualname__
+                parent_symbol, NonMementoFunctionHashRule._function_name(obj, symbol)
             ),
             parent_symbol=parent_symbol,
             symbol=symbol,
@@ -873,6 +873,20 @@ class NonMementoFunctionHashRule(HashRule):
         )
         self.src_fn = obj
         self.resolver = resolver
+
+    @staticmethod
+    def _function_name(obj: Callable, symbol: str) -> str:
+        """
+        Name that identifies the function within the rules of one parent. The qualified name
+        is not unique for lambdas (they are all called `<lambda>`), so the symbol through
+        which the lambda was reached is appended for them.
+
+        """
+        # noinspection PyUnresolvedReferences
+        name = obj.__module__ + ":" + obj.__qualname__
+        if "<lambda>" in obj.__qualname__:
+            name += "@" + symbol
+        return name
 
     def clone(self) -> HashRule:
         return NonMementoFunctionHashRule(
@@ -906,7 +920,9 @@ class NonMementoFunctionHashRule(HashRule):
 
         for dep in list_dotted_names(src_fn):
             # noinspection PyUnresolvedReferences
-            symbol_parent = src_fn.__module__ + ":" + src_fn.__qualname__
+            symbol_parent = NonMementoFunctionHashRule._function_name(
+                src_fn, self.symbol
+            )
             HashRule._visit_dependency(
                 result=result,
                 src_fn=src_fn,
